@@ -838,6 +838,11 @@ class Executor:
                 return _os.path.splitext(o.p)[1]
             if name == 'name':
                 return _os.path.basename(o.p)
+            if name in ('is_file', 'exists'):
+                # existence of a file of the tree under verification (or of the host file system): a fact of the environment the
+                # check runs in, read directly
+                fn = _os.path.isfile if name == 'is_file' else _os.path.exists
+                return Builtin('Path.' + name, lambda ex, fn=fn: bool(fn(o.p)))
             if name == 'write_text':
                 # file output: recorded, not performed
                 return Builtin('Path.write_text', lambda ex, text, **k: ex.ctx.events.append(('write_text', o.p, text)))
